@@ -253,15 +253,15 @@ theorem flatten_map_flatten {α β : Type} (g : α → List β) (ls : List (List
   | cons a rest ih => simp [ih]
 
 mutual
-theorem spillT_flatten_aux (p : Params) (pagesize hdr leafHdr branchHdr bmSize : Nat) (key : Bytes) (t : Tree Bytes Ent) :
-    ((spillT p pagesize hdr leafHdr branchHdr bmSize key t).map (fun e => e.2.flatten)).flatten = t.flatten := by
+theorem spillT_flatten_aux {E : Type} (p : Params) (pagesize hdr leafHdr branchHdr : Nat) (esz : Bytes × E → Nat) (key : Bytes) (t : Tree Bytes E) :
+    ((spillT p pagesize hdr leafHdr branchHdr esz key t).map (fun e => e.2.flatten)).flatten = t.flatten := by
   match t with
   | .leaf pid es =>
     simp only [spillT]
     split
     · simp [Tree.flatten]
     · simp only [List.map_map, Tree.flatten]
-      have : ((fun e : Bytes × Tree Bytes Ent => e.2.flatten) ∘ fun c => (firstKeyOr key c, Tree.leaf 0 c)) = id := by
+      have : ((fun e : Bytes × Tree Bytes E => e.2.flatten) ∘ fun c => (firstKeyOr key c, Tree.leaf 0 c)) = id := by
         funext c; simp [Tree.flatten]
       rw [this, List.map_id, cutAt_flatten']
   | .branch pid kids =>
@@ -269,20 +269,20 @@ theorem spillT_flatten_aux (p : Params) (pagesize hdr leafHdr branchHdr bmSize :
     split
     · simp [Tree.flatten]
     · simp only [List.map_map, Tree.flatten]
-      have : ((fun e : Bytes × Tree Bytes Ent => e.2.flatten) ∘
+      have : ((fun e : Bytes × Tree Bytes E => e.2.flatten) ∘
           fun c => (firstKeyOr key c, Tree.branch 0 (Forest.ofList c))) =
           fun c => (c.map (fun e => e.2.flatten)).flatten := by
         funext c; simp [Tree.flatten, flattenF_ofList]
       rw [this, flatten_map_flatten, cutAt_flatten']
-      exact spillF_flatten p pagesize hdr leafHdr branchHdr bmSize kids
-theorem spillF_flatten (p : Params) (pagesize hdr leafHdr branchHdr bmSize : Nat) (f : Forest Bytes Ent) :
-    ((spillF p pagesize hdr leafHdr branchHdr bmSize f).map (fun e => e.2.flatten)).flatten = Tree.flattenF f := by
+      exact spillF_flatten p pagesize hdr leafHdr branchHdr esz kids
+theorem spillF_flatten {E : Type} (p : Params) (pagesize hdr leafHdr branchHdr : Nat) (esz : Bytes × E → Nat) (f : Forest Bytes E) :
+    ((spillF p pagesize hdr leafHdr branchHdr esz f).map (fun e => e.2.flatten)).flatten = Tree.flattenF f := by
   match f with
   | .nil => simp [spillF, Tree.flattenF]
   | .cons k t rest =>
     simp only [spillF, List.map_append, List.flatten_append, Tree.flattenF]
-    rw [spillT_flatten_aux p pagesize hdr leafHdr branchHdr bmSize k t,
-      spillF_flatten p pagesize hdr leafHdr branchHdr bmSize rest]
+    rw [spillT_flatten_aux p pagesize hdr leafHdr branchHdr esz k t,
+      spillF_flatten p pagesize hdr leafHdr branchHdr esz rest]
 end
 
 end Jamm
